@@ -186,7 +186,6 @@ def run_property(mod, tier: str, seed: int) -> int:
     nshards = int(cfg.get("shards", getattr(mod, "NSHARDS", 16)))
     budget = float(cfg.get("budget_s", 120 if tier == "quick" else 1500))
     budget *= float(os.environ.get("VERIF_BUDGET_SCALE", "1"))   # development aid for a loaded machine; never set by registered commands
-    deadline = time.monotonic() + budget
     known = load_known()
     out_lines: list[str] = []
     exit_code = 0
@@ -222,6 +221,7 @@ def run_property(mod, tier: str, seed: int) -> int:
                         seen_known[v.sig] = e2["what"]
 
     # ---- generation -------------------------------------------------------------------------
+    deadline = time.monotonic() + budget   # the budget covers generation only; the replay tier above is not charged to it
     jobs = [(mod.__name__, cfg, seed, i, nshards, tier, deadline) for i in range(nshards)]
     procs = min(nshards, int(os.environ.get("VERIF_PROCS", "16")))
     if procs <= 1:
